@@ -479,9 +479,19 @@ def textread(repo):
                         caught.add("BaseException")
                     else:
                         caught |= {x.id for x in ast.walk(h.type) if isinstance(x, ast.Name)} | {x.attr for x in ast.walk(h.type) if isinstance(x, ast.Attribute)}
-                if not caught & {"IOError", "OSError", "EnvironmentError", "FileNotFoundError"}:
+                if not caught & {"IOError", "OSError", "EnvironmentError", "FileNotFoundError", "PermissionError", "IsADirectoryError",
+                                 "NotADirectoryError"}:
                     continue
                 res.instances += 1
+                if not caught & {"IOError", "OSError", "EnvironmentError", "Exception", "BaseException"}:
+                    res.add(f"{m.rel}|{f.qualname}|oserror", f"{f.qualname} catches only {sorted(caught)} around the file read: the other ways "
+                            "open() fails (a directory, a name that is too long, a path through a regular file, permissions) raise other "
+                            "OSError subclasses and end the compiler with a traceback instead of \"Unable to read file\"",
+                            m.rel, n.lineno, f.qualname)
+                if caught & {"UnicodeDecodeError", "UnicodeError"} and not caught & {"ValueError", "Exception", "BaseException"}:
+                    res.add(f"{m.rel}|{f.qualname}|nul", f"{f.qualname} catches {sorted(caught)} around open(): a file name with an embedded NUL "
+                            "byte (an import string can contain one) makes open() raise a plain ValueError, which escapes as a traceback",
+                            m.rel, n.lineno, f.qualname)
                 if not caught & {"UnicodeDecodeError", "UnicodeError", "ValueError", "Exception", "BaseException"}:
                     res.add(f"{m.rel}|{f.qualname}|decode", f"{f.qualname} reports an unreadable file (catches {sorted(caught)}) but a file that "
                             "is not valid text raises UnicodeDecodeError from the same read and escapes: the compiler ends with a "
@@ -491,4 +501,44 @@ def textread(repo):
     if res.instances < 1:
         raise AnalysisError("no guarded text read found in the drivers")
     res.analysed = ["compiler/front_end/emboss_front_end.py"]
+    return res
+
+
+
+def snippetguard(repo):
+    """R-SNIPPETGUARD (C16): an error can be located one line past the end of the file (the Indent/Dedent/newline tokens
+    the tokenizer synthesises at end of input).  Wherever a list of source lines is indexed with a location's line
+    number, the index must be dominated by a comparison of that line number with the length of the list."""
+    res = RuleResult("R-SNIPPETGUARD")
+    m = repo.mod("compiler/util/error.py")
+    for f in m.funcs.values():
+        lines_vars = set()
+        for n in walk_no_nested_funcs(f.node):
+            if isinstance(n, ast.Assign) and isinstance(n.targets[0], ast.Name) and isinstance(n.value, ast.Call) \
+                    and isinstance(n.value.func, ast.Attribute) and n.value.func.attr in ("splitlines", "split"):
+                lines_vars.add(n.targets[0].id)
+        for n in walk_no_nested_funcs(f.node):
+            if isinstance(n, ast.Subscript) and isinstance(n.value, ast.Name) and n.value.id in lines_vars \
+                    and ".line" in ast.unparse(n.slice):
+                res.instances += 1
+                guarded = False
+                cur = n
+                while cur is not f.node:
+                    par = m.parent(cur)
+                    if par is None:
+                        break
+                    if isinstance(par, (ast.If, ast.IfExp)):
+                        t = ast.unparse(par.test)
+                        if f"len({n.value.id})" in t and ".line" in t:
+                            guarded = True
+                    cur = par
+                if not guarded:
+                    res.add(f"{m.rel}|{f.qualname}|{n.value.id}", f"{f.qualname} indexes `{n.value.id}` with `{ast.unparse(n.slice)}` without comparing "
+                            f"the line number with len({n.value.id}): a syntax error at end of input is located on the line after the last "
+                            "one, and rendering it with the source raises IndexError", m.rel, n.lineno, f.qualname)
+                else:
+                    res.samples.append(f"{f.qualname}: {n.value.id}[...] guarded by a length test")
+    if res.instances < 1:
+        raise AnalysisError("error.py: no indexing of source lines by a location found")
+    res.analysed = [m.rel]
     return res
